@@ -79,10 +79,19 @@ def run(chk):
                   sched_kwargs={'quiet_ticks': 24, 'nmax': 5, 'heal_at_end': True, 'rpc_names': ('end_sync', 'end_sync', 'end_sync'), 'split_start': 0.3},
                   extra_judge=j)
     chk.coverage['schedules_judged_at_quiescence'] = judged[0]
+    # closed loop with processes, commanders, failure handler and conflicts (CONCILIATION is only reached there): harness/c16free.py
+    import c16free
+    c16free.liveness_stage(chk, 'C08:free:', [{}, {'ending': True}], 100, 6000)
     chk.assumptions += ['"within a bounded number of ticks" is liveness under fair schedules: not proved; judged 24 quiet ticks after the last disturbance',
                         'the application-free cluster is explored here (no start/stop job, no conflict); process failures are covered by C06 / C10',
                         'USER alone is not counted as a synchronisation condition that "can be met" (it needs a user action)']
 
 
 def replay(chk, path):
-    replay_schedule(chk, path, ['C08-'])
+    import json
+    c = json.load(open(path)); r = c.get('replay', c)
+    if r.get('stage') == 'free':
+        import c16free
+        c16free.liveness_replay(chk, r, 'C08:free:')
+    else:
+        replay_schedule(chk, path, ['C08-'])
